@@ -42,6 +42,10 @@ type method struct {
 	file   string
 	line   int
 	events []event
+	// deferred: some release of the body is a top-level `defer s.mu.Unlock()/RUnlock()`
+	// (it also runs when a user callback panics); false = every release is an ordinary
+	// statement, skipped by a panic that unwinds through the body
+	deferred bool
 }
 
 type walker struct {
@@ -64,8 +68,9 @@ type walker struct {
 	final    bool
 	// helpers: unexported SafeKV methods whose every use in the package is a call on the
 	// receiver from inside a SafeKV method; a call of one is walked in place (inlined).
-	helpers  map[string]*ast.FuncDecl
-	inlining []string // helpers being inlined (cycle guard; a `return` in them leaves the helper only)
+	helpers   map[string]*ast.FuncDecl
+	usedDefer bool     // a deferred release was seen
+	inlining  []string // helpers being inlined (cycle guard; a `return` in them leaves the helper only)
 }
 
 func (w *walker) emit(kind string, n ast.Node, note string) {
@@ -158,8 +163,10 @@ func (w *walker) top(list []ast.Stmt) {
 			if m, ok := w.muCall(&ast.ExprStmt{X: d.Call}); ok && len(d.Call.Args) == 0 && (m == "Unlock" || m == "RUnlock") {
 				if m == "Unlock" {
 					w.deferred = append(w.deferred, "unlock")
+					w.usedDefer = true
 				} else {
 					w.deferred = append(w.deferred, "runlock")
+					w.usedDefer = true
 				}
 				continue
 			}
@@ -747,6 +754,7 @@ func extract(repo string) ([]method, error) {
 				w.top(fd.Body.List)
 			}
 			m.events = w.events
+			m.deferred = w.usedDefer
 			ms = append(ms, m)
 		}
 	}
@@ -898,6 +906,16 @@ func Facts(repo string) (string, error) {
 				fmt.Fprintf(&b, "  --   bad at %s:%d: %s\n", filepath.Base(e.pos.Filename), e.pos.Line, e.note)
 			}
 		}
+	}
+	b.WriteString("]\n\n")
+	b.WriteString("-- per method: is (one of) its release(s) a top-level `defer s.mu.Unlock()/RUnlock()`?\n")
+	b.WriteString("def deferredRelease : List (String × Bool) := [\n")
+	for i, m := range ms {
+		sep := ","
+		if i == len(ms)-1 {
+			sep = ""
+		}
+		fmt.Fprintf(&b, "  (%q, %v)%s\n", m.name, m.deferred, sep)
 	}
 	b.WriteString("]\n\nend Golib.Gen.C12\n")
 	return b.String(), nil
